@@ -133,9 +133,9 @@ Notation queue := (queue A).
 Notation sgram := (sgram A).
 Notation stream := (stream upper_c).
 Notation pt_out := (pt_out upper_c).
-Notation interrupted := (interrupted upper_c optmax ffo_extra).
+Notation interrupted := (interrupted upper_c optmax ffo_extra).   (* explicit check_after_pop *)
 Notation resumed_session := (resumed_session optmax ffo_extra).
-Notation resumed_out := (resumed_out upper_c).
+Notation resumed_out := (resumed_out upper_c).                       (* explicit omen_first *)
 
 Definition str_eq_dec : forall a b : str, {a = b} + {a <> b} := list_eq_dec N.eq_dec.
 
@@ -284,14 +284,16 @@ Proof.
 Qed.
 
 (* ---------------- the interrupted session ---------------- *)
-Definition saved_file (st : mc_state) : session_file A :=
-  mk_sfile m (sess_quit sess_empty true (S j) (mc_save st)).
+Definition saved_file (mm : P A) (st : mc_state) : session_file A :=
+  mk_sfile mm (sess_quit sess_empty true (S j) (mc_save st)).
 
 Lemma interrupted_saves :
   exists st o c1,
     level_prefix optmax ffo_extra G (S j) c T = Some (firstn (S j) L, o, st, c1) /\
-    interrupted pop g (length U1) (S j) c =
-      Saved (stream g U1 ++ firstn (S j) L) (saved_file st).
+    interrupted true pop g (length U1) (S j) c =
+      Saved (stream g U1 ++ firstn (S j) L) (saved_file m st) /\
+    interrupted false pop g (length U1) (S j) c =
+      Saved (stream g U1 ++ firstn (S j) L) (saved_file (iprob x) st).
 Proof.
   destruct (enumerate_prefix G optmax ffo_extra extra_le T c (S j) starts Hc Hstarts) as (st & c1 & He & _).
   exists st, (run_status (S j) L), c1. split; [exact He|].
@@ -300,16 +302,19 @@ Proof.
   unfold level_prefix in He. unfold level_prefix. rewrite He.
   replace (Nat.eqb (length (firstn (S j) L)) (S j)) with true
     by (symmetry; apply Nat.eqb_eq; rewrite firstn_length; lia).
-  cbn [Nat.leb andb negb]. rewrite Ep', run_k. reflexivity.
+  cbn [Nat.leb andb negb]. rewrite Ep', run_k. split; reflexivity.
 Qed.
 
 (* ---------------- the resumed session ---------------- *)
-Lemma resumed_queue_stops n : length SS <= n ->
-  run pop' rs n (resume_start_gen false rs m) = resumed rs pop' m (length SS).
+Lemma resumed_queue_stops mm n : okb mm = true ->
+  length (filter (below mm) (all_preterminals rs)) <= n ->
+  run pop' rs n (resume_start_gen false rs mm) =
+  resumed rs pop' mm (length (filter (below mm) (all_preterminals rs))).
 Proof.
-  intros Hn. destruct (resume_exact rs Hwf pop' m Hpop' m_ok) as (_ & _ & _ & _ & _ & R6).
+  intros Hmm Hn. destruct (resume_exact rs Hwf pop' mm Hpop' Hmm) as (_ & _ & _ & _ & _ & R6).
   unfold resumed in *.
-  replace n with (length SS + (n - length SS)) by lia. rewrite run_add.
+  replace n with (length (filter (below mm) (all_preterminals rs)) +
+                  (n - length (filter (below mm) (all_preterminals rs)))) by lia. rewrite run_add.
   apply run_stuck. rewrite R6. apply (proj1 Hpop'). reflexivity.
 Qed.
 
@@ -331,13 +336,13 @@ Proof.
   apply filter_ext_in. intros z Hz. unfold peq, below. rewrite (Hb z Hz). apply andb_true_r.
 Qed.
 
-Definition the_resumed (st : mc_state) (n : nat) : resumed_run A :=
-  mk_resumed (skipn (S j) L) (run pop' rs n (resume_start_gen false rs m)).
+Definition the_resumed (mm : P A) (n : nat) : resumed_run A :=
+  mk_resumed (skipn (S j) L) (run pop' rs n (resume_start_gen false rs mm)).
 
-Lemma resumed_session_runs st o c1 cleared calls n :
+Lemma resumed_session_runs mm st o c1 cleared calls n :
   level_prefix optmax ffo_extra G (S j) c T = Some (firstn (S j) L, o, st, c1) ->
   length (skipn (S j) L) < calls ->
-  resumed_session false cleared pop' g (saved_file st) calls c2 n = Some (the_resumed st n).
+  resumed_session false cleared pop' g (saved_file mm st) calls c2 n = Some (the_resumed mm n).
 Proof.
   intros He Hcalls.
   destruct (continuation G optmax ffo_extra extra_le T c c2 j starts _ o st c1 Hc Hc2 Hstarts Hj He)
@@ -355,11 +360,11 @@ Theorem then_rest cleared calls n :
   exists f r,
     (* the interrupted session: everything before the level, the first j+1
        strings of the level; the file holds the probability of the pop that followed *)
-    interrupted pop g (length U1) (S j) c = Saved (stream g U1 ++ firstn (S j) L) f /\
+    interrupted true pop g (length U1) (S j) c = Saved (stream g U1 ++ firstn (S j) L) f /\
     sf_max_prob f = m /\
     (* the resumed session: the remaining strings of the level, then the pre-terminals B *)
     resumed_session false cleared pop' g f calls c2 n = Some r /\
-    resumed_out g r = skipn (S j) L ++ stream g (resumed_pops r) /\
+    resumed_out true g r = skipn (S j) L ++ stream g (resumed_pops r) /\
     (* B = everything the uninterrupted run emits after the level, plus exactly the
        earlier pre-terminals whose probability equals the saved one; each once, in order *)
     Permutation (resumed_pops r) (filter tiedb (U1 ++ [x]) ++ y :: U2) /\
@@ -367,12 +372,12 @@ Theorem then_rest cleared calls n :
     pending (rr_queue r) = [].
 Proof.
   intros Hcalls Hn.
-  destruct interrupted_saves as (st & o & c1 & He & Hint).
-  exists (saved_file st), (the_resumed st n).
-  pose proof (resumed_session_runs st o c1 cleared calls n He Hcalls) as Hres.
+  destruct interrupted_saves as (st & o & c1 & He & Hint & _).
+  exists (saved_file m st), (the_resumed m n).
+  pose proof (resumed_session_runs m st o c1 cleared calls n He Hcalls) as Hres.
   destruct (resume_exact rs Hwf pop' m Hpop' m_ok) as (R1 & R2 & _ & _ & _ & R6).
-  assert (Hq : rr_queue (the_resumed st n) = resumed rs pop' m (length SS))
-    by (apply (resumed_queue_stops n Hn)).
+  assert (Hq : rr_queue (the_resumed m n) = resumed rs pop' m (length SS))
+    by (apply (resumed_queue_stops m n m_ok Hn)).
   split; [exact Hint|]. split; [reflexivity|]. split; [exact Hres|].
   unfold MarkovSession.resumed_out, resumed_pops. rewrite Hq.
   split; [reflexivity|]. split; [exact resumed_pops_perm|]. split; [apply R1|].
@@ -419,21 +424,21 @@ Qed.
 Theorem tied_level_repeats cleared calls n :
   length (skipn (S j) L) < calls -> length SS <= n ->
   exists f r,
-    interrupted pop g (length U1) (S j) c = Saved (stream g U1 ++ firstn (S j) L) f /\
+    interrupted true pop g (length U1) (S j) c = Saved (stream g U1 ++ firstn (S j) L) f /\
     resumed_session false cleared pop' g f calls c2 n = Some r /\
     (* the level's own pre-terminal is popped again iff it ties with the saved probability *)
     (In x (resumed_pops r) <-> peq (iprob x) m = true) /\
     (* tied: regenerated in full exactly once, after its remainder *)
     (peq (iprob x) m = true ->
        exists B1 B2, resumed_pops r = B1 ++ x :: B2 /\ ~ In x B1 /\ ~ In x B2 /\
-         resumed_out g r = skipn (S j) L ++ stream g B1 ++ L ++ stream g B2) /\
+         resumed_out true g r = skipn (S j) L ++ stream g B1 ++ L ++ stream g B2) /\
     (* not tied: never again *)
     (peq (iprob x) m = false -> ~ In x (resumed_pops r)) /\
     (* the only repetition of its strings: a string no OTHER pre-terminal of the
        grammar produces occurs, over both sessions, as often as in the level --
        twice that when the level is tied *)
     (forall s, (forall z, In z (all_preterminals rs) -> z <> x -> ~ In s (pt_out g (ipt z))) ->
-       count_occ str_eq_dec ((stream g U1 ++ firstn (S j) L) ++ resumed_out g r) s =
+       count_occ str_eq_dec ((stream g U1 ++ firstn (S j) L) ++ resumed_out true g r) s =
        count_occ str_eq_dec L s + (if peq (iprob x) m then count_occ str_eq_dec L s else 0)).
 Proof.
   intros Hcalls Hn.
@@ -442,7 +447,7 @@ Proof.
   pose proof (level_in_resumed_iff _ HP) as Hiff.
   assert (Htied : peq (iprob x) m = true ->
             exists B1 B2, resumed_pops r = B1 ++ x :: B2 /\ ~ In x B1 /\ ~ In x B2 /\
-              resumed_out g r = skipn (S j) L ++ stream g B1 ++ L ++ stream g B2).
+              resumed_out true g r = skipn (S j) L ++ stream g B1 ++ L ++ stream g B2).
   { intros Ht. destruct (in_split _ _ (proj2 Hiff Ht)) as (B1 & B2 & EB).
     exists B1, B2. split; [exact EB|]. rewrite EB in Hnd.
     pose proof (NoDup_remove_2 _ _ _ Hnd) as Hno.
@@ -479,6 +484,46 @@ Proof.
     rewrite Hout, count_occ_app. unfold ostr, str in *. rewrite H1. lia.
 Qed.
 
+(* ================= the quit check in front of the pop ================= *)
+(* Why the code pops first: were the quit flag tested at the top of the loop,
+   the saved probability would be the interrupted level's own and the resumed
+   run would ALWAYS pop the level's pre-terminal again and print the whole
+   level once more after its remainder -- tied with anything or not. *)
+Lemma x_ok : okb (iprob x) = true.
+Proof.
+  apply (good_iprob_ok rs Hwf), In_all_preterminals, U_in_all.
+  apply in_or_app. right. left. reflexivity.
+Qed.
+
+Theorem check_before_pop_regenerates cleared calls n :
+  length (skipn (S j) L) < calls ->
+  length (filter (below (iprob x)) (all_preterminals rs)) <= n ->
+  exists f r,
+    interrupted false pop g (length U1) (S j) c = Saved (stream g U1 ++ firstn (S j) L) f /\
+    sf_max_prob f = iprob x /\
+    resumed_session false cleared pop' g f calls c2 n = Some r /\
+    exists B1 B2, resumed_pops r = B1 ++ x :: B2 /\
+      resumed_out true g r = skipn (S j) L ++ stream g B1 ++ L ++ stream g B2.
+Proof.
+  intros Hcalls Hn.
+  destruct interrupted_saves as (st & o & c1 & He & _ & Hint).
+  exists (saved_file (iprob x) st), (the_resumed (iprob x) n).
+  pose proof (resumed_session_runs (iprob x) st o c1 cleared calls n He Hcalls) as Hres.
+  destruct (resume_exact rs Hwf pop' (iprob x) Hpop' x_ok) as (_ & _ & _ & _ & R5 & _).
+  assert (Hq : rr_queue (the_resumed (iprob x) n) =
+               resumed rs pop' (iprob x) (length (filter (below (iprob x)) (all_preterminals rs))))
+    by (apply (resumed_queue_stops (iprob x) n x_ok Hn)).
+  split; [exact Hint|]. split; [reflexivity|]. split; [exact Hres|].
+  assert (Hin : In x (resumed_pops (the_resumed (iprob x) n))).
+  { unfold resumed_pops. rewrite Hq. apply in_rev. rewrite rev_involutive.
+    apply (Permutation_in _ (Permutation_sym R5)). apply filter_In. split.
+    - apply U_in_all. apply in_or_app. right. left. reflexivity.
+    - unfold below. apply (ple_refl A), x_ok. }
+  destruct (in_split _ _ Hin) as (B1 & B2 & EB). exists B1, B2. split; [exact EB|].
+  unfold MarkovSession.resumed_out. rewrite EB, stream_app, stream_cons, (markov_pt_out g _ _ HT).
+  reflexivity.
+Qed.
+
 End Cut.
 
 (* ---------------- R18 inside the combined model ---------------- *)
@@ -491,7 +536,7 @@ Theorem last_level_not_saved (g : sgram) pop U1 x T j c starts :
   j < length (level_strings (sg_omen g) T) ->
   cache_ok (cp_fast (sg_omen g)) (og_max_level (sg_omen g)) c ->
   mc_starts (ip_at (sg_omen g)) (ln_at (sg_omen g)) (og_max_level (sg_omen g)) ffo_extra = Some starts ->
-  interrupted pop g (length U1) (S j) c =
+  interrupted true pop g (length U1) (S j) c =
     NotSaved (stream g U1 ++ firstn (S j) (level_strings (sg_omen g) T)).
 Proof.
   intros Hwf Hpop HU HT Hj Hc Hstarts.
